@@ -55,8 +55,8 @@ def parse_output(text):
     return out
 
 
-def run_combo(exe, scns, keyidx):
-    rc, so, se = cppbuild.run_exe(exe, encode(scns, keyidx), timeout=600)
+def run_combo(exe, scns, keyidx, offset=0.0):
+    rc, so, se = cppbuild.run_exe(exe, encode(scns, keyidx), timeout=600, args=([float(offset).hex()] if offset else []))
     if rc != 0:
         raise RuntimeError("mf driver exit %d: %s" % (rc, se[-500:]))
     return parse_output(so)
